@@ -1,0 +1,13 @@
+//go:build verif
+
+package limits
+
+// Contracts for the deductive verifier in /verif (govc). Comment-only file.
+
+// intsInBounds(n): every integer anywhere inside node n lies within +/-(2^53-1).
+//@ ghost func intsInBounds(n ipld.Node) bool
+//@
+//@ func ValidateIntegerBoundsIPLD
+//@   trusted
+//@   ensures result == nil ==> intsInBounds(node)
+//@   assigns nothing
